@@ -33,6 +33,7 @@ CONFIGS = [
     {"version": 2.0, "len_numeric_field": 14, "header_width": 40},
     {"version": 1.2, "mnemonics_header": True},
     {"version": 2.0, "data_section_header": "~A  DEPTH     GR", "wrap": False},
+    {"version": 2.0, "wrap": True, "len_numeric_field": -1, "data_width": 20},
 ]
 BOUNDS = {
     "quick": {"field_len_cap": 1, "sections": ["W", "P"], "configs": len(CONFIGS), "task_budget_s": 900},
@@ -54,12 +55,15 @@ def tasks(tier):
             if tier == "quick" and shp[0] == 0:
                 continue
             out.append({"name": "%s/%s" % (sec, "".join(map(str, shp))), "params": {"section": sec, "shape": list(shp)}})
+    # ~Well mnemonics long enough to spell STRT/STOP/STEP/NULL (any case mix, optionally followed by a digit)
+    for shp in ((4, 0, 1, 1), (5, 0, 1, 1)):
+        out.append({"name": "W/%s/letters" % "".join(map(str, shp)), "params": {"section": "W", "shape": list(shp), "letters_only": True}})
     return out
 
 
 def build(ns, section, fields):
     las = ns.las.LASFile()
-    las.append_curve("DEPT", np.array([1.0, 2.0]), unit="M", descr="depth")
+    las.append_curve("DEPT", np.array([999.5, 1000.0]), unit="M", descr="depth")  # the rows differ in digit count
     las.append_curve("GR", np.array([10.5, np.nan]), unit="API", descr="gamma")
     las.append_curve("RHOB", np.array([2.25, 2.5]), unit="G/C3", descr="density")
     las.append_curve("NPHI", np.array([-0.125, 0.375]), unit="V/V", descr="porosity")
@@ -88,6 +92,10 @@ def harness(ns, params):
             for x in (u, v, d):
                 if isinstance(x, SymStr):
                     core.assume(allc(x, not_char(".")))
+        if params.get("letters_only"):
+            core.assume(allc(m, lambda c: z.Or(z.in_range_c(c, 65, 90), z.in_range_c(c, 97, 122), z.in_range_c(c, 48, 57))))
+            core.assume(z.Not(z.in_range_c(m.chars[0], 48, 57)))
+            core.assume(z.Not(z.Or([m.eq_expr(n) for n in ("STRT", "STOP", "STEP", "NULL")])))  # exact duplicates cannot be written (known finding of C03)
         a = fresh_int("config_a", 0, len(CONFIGS) - 1)
         b = fresh_int("config_b", 0, len(CONFIGS) - 1)
         core.assume(z.lt(a.e, b.e))
